@@ -74,7 +74,7 @@ def cmd_digest(args):
     mod = load_check(args.property)
     units = json.loads(sys.stdin.read())
     if hasattr(mod, "prepare"):
-        mod.prepare("selftest")
+        mod.prepare("slice")
     print("UNITDIGESTS " + json.dumps([selftest.unit_digest(mod, u) for u in units]))
     return 0
 
@@ -87,7 +87,7 @@ def cmd_units(args):
     mod = load_check(args.property)
     units = json.loads(sys.stdin.read())
     if hasattr(mod, "prepare"):
-        mod.prepare("selftest")
+        mod.prepare("slice")
     out, evaluations = [], 0
     for u in units:
         res = mod.run_unit(u)
